@@ -333,6 +333,9 @@ def classify(ctx, heap, f, node, kind, target):
     root = _root_name(tgt)
     # 1. construction
     is_init = f.name == "__init__" or _only_called_from_init(ctx, f)
+    if is_init and root == "self" and f.cls is not None and _class_level_container(heap, f, tgt):
+        return "FINDING", ("`%s` is a container defined once on the class, not a field of the object under construction: every instance "
+                           "(every concurrent parse) edits the same table in place" % _class_level_container(heap, f, tgt))
     if is_init and root == "self" and f.cls is not None:
         if _is_registry_class(ctx, f.cls):
             return "FINDING", ("%s re-initialises an instance that the registry hands out to every call with an equal "
@@ -393,6 +396,22 @@ def classify(ctx, heap, f, node, kind, target):
                 return "keyed-memo", "single writer of the caches; every caller tests membership of the same (settings hash, locale) key first"
     # registry insert: registry_dict[key] = creator(...) under `if key not in registry_dict`
     return "FINDING", "write to process-wide state that is neither construction, a memo idiom nor lock-protected"
+
+
+def _class_level_container(heap, f, tgt):
+    """self.X (inside self.X[...] / self.X.method) where X is a container written once in the class body and never rebound per instance"""
+    e = tgt
+    while isinstance(e, (ast.Subscript, ast.Attribute)) and not (isinstance(e, ast.Attribute) and isinstance(e.value, ast.Name) and e.value.id == "self"):
+        e = e.value
+    if not (isinstance(e, ast.Attribute) and isinstance(e.value, ast.Name) and e.value.id == "self") or e is tgt and isinstance(tgt.ctx, ast.Store):
+        return None
+    for k in f.cls.mro():
+        v = k.attrs.get(e.attr)
+        if isinstance(v, (ast.Dict, ast.List, ast.Set)) or (
+                isinstance(v, ast.Call) and ast.unparse(v.func).split(".")[-1] in ("dict", "list", "set", "OrderedDict", "defaultdict", "deque")):
+            if not heap._instance_rebinds(f.cls, e.attr):
+                return "%s.%s" % (k.name, e.attr)
+    return None
 
 
 def _attr_readers(ctx, attr):
